@@ -73,7 +73,10 @@ struct Verdict {
 
 fn evaluate(s: &[u8], version_id: u8) -> Result<Verdict, ()> {
     catch_unwind(AssertUnwindSafe(|| {
-        let e = eval_from_bytes(s, version_id);
+        // the call the parser makes for every output (tx.rs: EvaluatedTxOut::eval_script), not eval_from_bytes directly:
+        // anything the parser puts between the stored bytes and the evaluator is part of what is checked
+        let out = crate::blockchain::proto::tx::TxOutput { value: 0, script_len: crate::blockchain::proto::varuint::VarUint::from(s.len() as u64), script_pubkey: s.to_vec() };
+        let e = crate::blockchain::proto::tx::EvaluatedTxOut::eval_script(out, version_id).script;
         let payload = match &e.pattern {
             ScriptPattern::OpReturn(d) => Some(d.clone()),
             _ => None,
@@ -181,6 +184,8 @@ fn scripts(prop: &str) -> Report {
     let mut shards_fork: Vec<Shard> = vec![short_scripts()];
     shards_fork.extend(template_mutations(&fork_templates()));
     shards_fork.extend(fork_push_family(thorough));
+    shards_fork.push(long_templates());
+    shards_btc.push(long_templates());
     shards_fork.extend(token_sequences(tok_len));
     if prop == "C14" {
         shards_btc.push(extremes());
